@@ -9,6 +9,7 @@ import (
 	"context"
 	"encoding/json"
 	"fmt"
+	"io"
 	"math"
 	"os"
 	"sort"
@@ -16,8 +17,10 @@ import (
 	"strings"
 	"testing"
 	"testing/synctest"
+	"time"
 
 	"github.com/sirupsen/logrus"
+	"golang.org/x/time/rate"
 
 	"github.com/atlassian/gostatsd"
 	"github.com/atlassian/gostatsd/pkg/stats"
@@ -101,12 +104,16 @@ func renderAll(maps []*gostatsd.MetricMap, evs []*gostatsd.Event) string {
 	return sb.String()
 }
 
-func newRig(ctx context.Context, ns string, ih bool) *rig {
+func newRig(ctx context.Context, ns string, ih bool) *rig { return newRigLimit(ctx, ns, ih, 0) }
+
+// newRigLimit: badLines > 0 turns the rate-limited bad-line logging on (bad-lines-per-minute in the configuration)
+func newRigLimit(ctx context.Context, ns string, ih bool, badLines float64) *rig {
 	r := &rig{in: make(chan []*statsd.Datagram), h: &fakes.Handler{}, st: fakes.NewStatser(), ns: ns, ih: ih, panicCh: make(chan string, 1)}
 	logger := logrus.New()
 	logger.SetLevel(logrus.PanicLevel)
 	logrus.SetLevel(logrus.PanicLevel)
-	p := statsd.NewDatagramParser(r.in, ns, ih, 0, r.h, 0, false, logger)
+	logrus.SetOutput(io.Discard)
+	p := statsd.NewDatagramParser(r.in, ns, ih, 0, r.h, rate.Limit(badLines), false, logger)
 	sctx := stats.NewContext(ctx, r.st)
 	go func() {
 		defer func() {
@@ -136,6 +143,7 @@ func (r *rig) feed(ctx context.Context, msg []byte, ts int64) (done bool, panick
 	}
 	r.st.Flush(ctx)
 	synctest.Wait()
+	time.Sleep(time.Millisecond) // virtual time: lets the bad-line log rate limiter refill
 	return done, ""
 }
 
@@ -201,7 +209,9 @@ func TestCases(t *testing.T) {
 			}
 			maps, evs := r.h.Take()
 			cap := &captured{desc: text, maps: maps, events: evs, render: renderAll(maps, evs)}
-			fail := func(sig, f string, a ...any) { res.Fail("C05", sig, fmt.Sprintf("datagram %q ignore-host=%v ns=%q: ", text, c.IH, ns)+fmt.Sprintf(f, a...), rec) }
+			fail := func(sig, f string, a ...any) {
+				res.Fail("C05", sig, fmt.Sprintf("datagram %q ignore-host=%v ns=%q: ", text, c.IH, ns)+fmt.Sprintf(f, a...), rec)
+			}
 
 			// --- counters
 			r.bad += float64(c.Bad)
@@ -384,7 +394,7 @@ func TestRobust(t *testing.T) {
 	synctest.Test(t, func(t *testing.T) {
 		ctx, cancel := context.WithCancel(context.Background())
 		defer cancel()
-		r := newRig(ctx, "", false)
+		rigs := []*rig{newRig(ctx, "", false), newRigLimit(ctx, "", false, 1e9)}
 		lx := verifhooks.NewLexer(0)
 		err := vh.ReadCases(path, func(idx int, raw []byte) error {
 			if (idx+int(seed))%every != 0 {
@@ -395,7 +405,58 @@ func TestRobust(t *testing.T) {
 				return err
 			}
 			rng := vh.NewRng(seed, idx)
-			line := concretise(c.In, rng)
+			lines := []string{concretise(c.In, rng)}
+			if len(c.In) <= 3 { // pumping: every token repeated up to the datagram size, '!' as each kind of odd byte
+				for k := 0; k < 24; k++ {
+					lines = append(lines, pump(c.In, rng))
+				}
+			}
+			for li, line := range lines {
+				if err := robustOne(ctx, res, rigs, lx, &c, idx+li, line); err != nil {
+					return err
+				}
+			}
+			return nil
+		})
+		if err != nil {
+			t.Fatal(err)
+		}
+		cancel()
+		synctest.Wait()
+	})
+	res.Distinct = res.Evaluations
+}
+
+var pumpLens = []int{1, 2, 255, 256, 257, 1000, 3000, 20000}
+var oddBytes = []byte{0x00, 0x80, 0xBF, 0xC3, 0xE2, 0xFF, '!', '\\'}
+
+// pump repeats each token of a short line a seeded number of times (total <= 65535 bytes).
+func pump(toks []string, rng *vh.Rng) string {
+	var sb strings.Builder
+	odd := string([]byte{oddBytes[rng.Intn(len(oddBytes))]})
+	for _, t := range toks {
+		if t == "!" {
+			t = odd
+		}
+		n := pumpLens[rng.Intn(len(pumpLens))]
+		if sb.Len()+n*len(t) > 65000 {
+			n = 1
+		}
+		sb.WriteString(strings.Repeat(t, n))
+	}
+	return sb.String()
+}
+
+func clip(s string) string {
+	if len(s) > 300 {
+		return s[:300]
+	}
+	return s
+}
+
+func robustOne(ctx context.Context, res *vh.Result, rigs []*rig, lx *verifhooks.Lexer, c *lcase, idx int, line string) error {
+	{
+		{
 			// the line alone decides what the datagram must do with it (differential form of the statement)
 			wantBad, wantMetric, wantEvent := 0, 0, 0
 			func() {
@@ -425,18 +486,21 @@ func TestRobust(t *testing.T) {
 				text = line + "\n" + line + "\nzz.valid:1|c\n"
 				wantBad, wantMetric, wantEvent = 2*wantBad, 2*wantMetric, 2*wantEvent
 			}
-			rec := map[string]any{"datagram": text, "case": idx}
+			ri := idx % 2
+			r := rigs[ri]
+			rec := map[string]any{"datagram_hex": fmt.Sprintf("%x", clip(text)), "datagram_len": len(text), "tokens": c.In, "case": idx, "bad_line_logging": ri == 1}
 			_, pan := r.feed(ctx, []byte(text), int64(5_000_000+idx))
+			text, line = clip(text), clip(line)
 			res.Eval(len(c.In) >= 2)
 			if pan != "" {
 				res.Fail("C03", "parser-panic:"+c.St, fmt.Sprintf("DatagramParser goroutine died on %q: %s", text, pan), rec)
-				r = newRig(ctx, "", false)
-				return nil
-			}
-			if wantBad < 0 {
+				rigs[ri] = newRigLimit(ctx, "", false, float64(ri)*1e9)
 				return nil
 			}
 			maps, evs := r.h.Take()
+			if wantBad < 0 {
+				return nil
+			}
 			valid := false
 			for _, m := range maps {
 				if c, ok := m.Counters["zz.valid"]; ok && len(c) == 1 {
@@ -458,14 +522,8 @@ func TestRobust(t *testing.T) {
 				res.Sample(rec)
 			}
 			return nil
-		})
-		if err != nil {
-			t.Fatal(err)
 		}
-		cancel()
-		synctest.Wait()
-	})
-	res.Distinct = res.Evaluations
+	}
 }
 
 // concretise maps tokens to bytes; the symbolic header numbers get boundary values. NUL bytes and very long
@@ -480,13 +538,15 @@ func concretise(toks []string, rng *vh.Rng) string {
 		}
 		switch t {
 		case "!":
-			switch rng.Intn(4) {
+			switch rng.Intn(5) {
 			case 0:
 				sb.WriteByte(0) // NUL
 			case 1:
 				sb.WriteByte(byte(0x80 + rng.Intn(0x80)))
 			case 2:
 				sb.WriteString(strings.Repeat("!", 1+rng.Intn(3000)))
+			case 3: // a long run of one high byte (UTF-8 continuation or lead bytes)
+				sb.WriteString(strings.Repeat(string([]byte{byte(0x80 + rng.Intn(0x80))}), 1+rng.Intn(3000)))
 			default:
 				sb.WriteByte('!')
 			}
